@@ -305,6 +305,13 @@ def Settings.apply (s : Settings) : RouteOpt → Settings
   | .priority => { s with priority := true }
   | .sse => { s with sse := true, timeout := 0 }
 
+/-- `validateSecret`: `WithJwt(secret)` / `WithJwtTransition(secret, prev)` panic when `len(secret) < 8` (bytes; the
+previous secret is not validated).  The panic leaves `AddRoutes` before `engine.addRoutes`: nothing is registered. -/
+def RouteOpt.panics : RouteOpt → Bool
+  | .jwt s => s.utf8ByteSize < 8
+  | .jwtTransition s _ => s.utf8ByteSize < 8
+  | _ => false
+
 /-- what `WithPrefix(g)` makes of one route: `Route{Method: rt.Method, Path: path.Join(g, rt.Path), Handler: rt.Handler}`. -/
 def prefixReg (g : String) (r : Reg) : Reg := (r.1, joinGo g r.2.1, r.2.2)
 
@@ -378,6 +385,15 @@ def Api.step (a : Api) : ApiOp → Api
     { a with frs := a.frs ++ [opts.foldl (aApply a.heap) (r0, {})] }
   | .addOne r opts => { a with frs := a.frs ++ [opts.foldl (aApply a.heap) (.own [r], {})] }
 
+/-- the call panics inside one of its options (`validateSecret`) — before `engine.addRoutes`. -/
+def ApiOp.panics : ApiOp → Bool
+  | .slice _ => false
+  | .add _ opts => opts.any RouteOpt.panics
+  | .addOne _ opts => opts.any RouteOpt.panics
+
+/-- one API call, panics included: a panicking call leaves the server as it was. -/
+def Api.stepChecked (a : Api) (op : ApiOp) : Api := if op.panics then a else a.step op
+
 /-- the group a reference denotes now. -/
 def resolve (heap : List (List Reg)) (f : RoutesRef × Settings) : Featured := { routes := deref heap f.1, set := f.2 }
 
@@ -387,16 +403,30 @@ def Api.regs (a : Api) : List Reg := a.frs.flatMap fun f => deref a.heap f.1
 inductive RunOpt where
   | notFound (h : Option H)      -- rest.WithNotFoundHandler(h)
   | notAllowed (h : Option H)    -- rest.WithNotAllowedHandler(h)
+  | chain (n : Nat)              -- rest.WithChain(chain.New(c1 … cn)): `svr.ngin.chain = chn` (replaces the native chain)
+  | cors                         -- rest.WithCors(): `SetNotAllowedHandler(cors.NotAllowedHandler(...))`, then the router is
+                                 -- wrapped: `corsRouter.ServeHTTP` answers EVERY `OPTIONS` request itself (204)
+  | router                       -- rest.WithRouter(router.NewRouter()): `server.router = router` (a FRESH patRouter:
+                                 -- whatever an earlier option installed on the old router is gone, including the
+                                 -- engine's not-found wrapper that `NewServer` puts in front of the user's options)
   deriving Repr, DecidableEq
 
 /-- `rest.Server{ngin, router}` as far as routing goes. -/
 structure Server where
   router : PatRouter := {}
   groups : List Group := []      -- `engine.routes`, in `AddRoutes` order
+  chain : Option Nat := none     -- `engine.chain` (`WithChain`): the number of middlewares of the custom chain
+  cors : Bool := false           -- `server.router` is a `corsRouter` around the patRouter (`WithCors`)
+
+/-- the handler `cors.NotAllowedHandler(nil, origins...)` (a reserved id): it answers 404 (204 for `OPTIONS`). -/
+def corsNA : H := 204404
 
 def Server.apply (s : Server) : RunOpt → Server
   | .notFound h => { s with router := { s.router with notFound := some (.engine h) } }
   | .notAllowed h => { s with router := { s.router with notAllowed := h } }
+  | .router => { s with router := {}, cors := false }
+  | .chain n => { s with chain := some n }
+  | .cors => { s with router := { s.router with notAllowed := some corsNA }, cors := true }
 
 /-- `rest.NewServer(c, opts...)`: `opts = append([]RunOption{WithNotFoundHandler(nil)}, opts...)`, applied in order. -/
 def newServer (opts : List RunOpt) : Server :=
@@ -420,5 +450,124 @@ def Server.regs (s : Server) : List Reg := s.groups.flatMap Group.regs
 def Server.bindRoutes (s : Server) : Server × Option HandleErr :=
   let res := bindAll s.router.core s.regs
   ({ s with router := { s.router with core := res.1 } }, res.2)
+
+/-! ### round 5: the loops of `engine.bindRoutes` as they are nested in the code, `Server.Start`, `pathvar` -/
+
+/-- `engine.bindRoutes`: `for _, fr := range ng.routes { if err := ng.bindFeaturedRoutes(router, fr, metrics); err != nil
+{ return err } }` over `bindFeaturedRoutes` = `bindAll` on the routes of ONE group: the first group that reports an
+error aborts the outer loop with that error. -/
+def bindGroups (r : Router) : List (List Reg) → Router × Option HandleErr
+  | [] => (r, none)
+  | g :: gs =>
+    match (bindAll r g).2 with
+    | none => bindGroups (bindAll r g).1 gs
+    | some e => ((bindAll r g).1, some e)
+
+/-- the groups of a server as `engine.routes` holds them. -/
+def Server.groupRegs (s : Server) : List (List Reg) := s.groups.map Group.regs
+
+/-- the groups the engine reads through its references (aliasing model). -/
+def Api.groupRegs (a : Api) : List (List Reg) := a.frs.map fun f => deref a.heap f.1
+
+/-- how `Server.Start()` ends in the harness' world (no listener can be opened): `engine.start` returns the error of
+`bindRoutes` BEFORE it tries to listen, `handleError` panics with it; otherwise the listener's error is reported. -/
+inductive StartResult where
+  | panics (e : HandleErr)      -- `handleError(err)`: `panic(err)` with the registration error
+  | listens                      -- registration succeeded: `internal.StartHttp(...)` is reached
+  deriving Repr, DecidableEq
+
+/-- `handleError(err)`: returns for `err == nil` and for (a wrapper of) `http.ErrServerClosed`, panics with `err`
+otherwise (`isNil`: the interface value is nil — a typed-nil pointer is NOT; `closed`: `errors.Is(err, ErrServerClosed)`). -/
+def handleErrorPanics (isNil closed : Bool) : Bool := !(isNil || closed)
+
+/-- `Server.Start()` = `handleError(s.ngin.start(s.router))`, `engine.start` = `bindRoutes` (nested loops), then listen. -/
+def Server.start (s : Server) : Server × StartResult :=
+  let res := bindGroups s.router.core s.groupRegs
+  ({ s with router := { s.router with core := res.1 } },
+   match res.2 with
+   | some e => .panics e
+   | none => .listens)
+
+/-- who answers a request that reaches `server.router.ServeHTTP`. -/
+inductive SrvResponse where
+  | preflight                    -- `corsRouter`: `cors.Middleware` wrote 204 for an `OPTIONS` request; the patRouter is NOT asked
+  | router (r : Response)        -- the patRouter answers
+  deriving Repr, DecidableEq
+
+/-- `server.router.ServeHTTP`: with `WithCors` the CORS middleware sits in front of the patRouter. -/
+def Server.serveHTTP (s : Server) (method path : String) : SrvResponse :=
+  if s.cors && method == "OPTIONS" then .preflight else .router (s.router.serveHTTP method path)
+
+/-- `rest.MustNewServer(c, opts...)`: `NewServer(c, opts...)` (the error branch — `c.SetUp()` failing — ends the process). -/
+def mustNewServer (opts : List RunOpt) : Server := newServer opts
+
+/-! #### what `engine.bindRoute` puts in front of a route handler -/
+
+/-- `handler.Authorize(secret[, WithPrevSecret(prev)])` accepts a token signed with the secret or, when a previous
+secret is configured, with that one. -/
+def tokenOk (jwt : Option (String × String)) (auth : Option String) : Bool :=
+  match jwt with
+  | none => true
+  | some (a, b) => match auth with
+    | some t => t == a || (b != "" && t == b)
+    | none => false
+
+/-- one element of the chain `bindRoute` builds, outermost first. -/
+inductive Layer where
+  | chainMw (i : Nat)                  -- middleware i of the chain given to `WithChain` (instead of the native ones)
+  | auth (secret prev : String)        -- `appendAuthHandler`: the group's `WithJwt` / `WithJwtTransition`
+  | use (k : Nat)                      -- `Server.Use` middleware k (`ng.middlewares`, in `Use` order)
+  | routeMw (i : Nat)                  -- `rest.WithMiddlewares` middleware i wrapped around `route.Handler` itself
+  deriving Repr, DecidableEq
+
+/-- `bindRoute`: `chn := ng.chain` (or the native middlewares, which pass the request on), `appendAuthHandler`,
+`for _, middleware := range ng.middlewares { chn = chn.Append(...) }`, `chn.ThenFunc(route.Handler)`. -/
+def bindChain (chain : Option Nat) (jwt : Option (String × String)) (uses : List Nat) (nmw : Nat) : List Layer :=
+  ((List.range (chain.getD 0)).map fun i => Layer.chainMw (i + 1)) ++
+  (match jwt with | some (a, b) => [Layer.auth a b] | none => []) ++
+  uses.map Layer.use ++ (List.range nmw).map fun i => Layer.routeMw (i + 1)
+
+def Layer.tag : Layer → String
+  | .chainMw i => "c" ++ toString i
+  | .auth _ _ => "auth"
+  | .use k => "u" ++ toString k
+  | .routeMw i => toString i
+
+/-- a request with the bearer token `auth` goes down the chain: the middlewares that ran (in order) and whether
+the route handler is reached (`false`: the Authorize handler answered 401). -/
+def runChain (auth : Option String) : List Layer → List String × Bool
+  | [] => ([], true)
+  | .auth a b :: rest => if tokenOk (some (a, b)) auth then runChain auth rest else ([], false)
+  | l :: rest => (l.tag :: (runChain auth rest).1, (runChain auth rest).2)
+
+/-- a value stored in a `context.Context`. -/
+inductive CtxVal where
+  | vars (m : List (String × String))   -- a `map[string]string`
+  | other (s : String)                    -- anything else
+  deriving Repr, DecidableEq
+
+/-- `context.Context` as a chain of `WithValue` frames, innermost first.  Keys are compared by type AND value in Go:
+`pathvar`'s key has the unexported type `contextKey`, so no other package can build an equal key; here every key is
+a string and the pathvar key is the distinguished `pathVarsKey`. -/
+abbrev Ctx := List (String × CtxVal)
+
+def pathVarsKey : String := "rest/pathvar.contextKey(pathVars)"
+
+/-- `pathvar.WithVars(r, params)`: `r.WithContext(context.WithValue(r.Context(), pathVars, params))` -/
+def Ctx.withVars (c : Ctx) (m : List (String × String)) : Ctx := (pathVarsKey, .vars m) :: c
+
+/-- `pathvar.Vars(r)`: `vars, ok := r.Context().Value(pathVars).(map[string]string)`; `nil` when absent. -/
+def Ctx.vars (c : Ctx) : Option (List (String × String)) :=
+  match c.lookup pathVarsKey with
+  | some (.vars m) => some m
+  | _ => none
+
+/-- `ServeHTTP`: `if len(result.Params) > 0 { r = pathvar.WithVars(r, result.Params) }` — the context the route
+handler is called with. -/
+def handlerCtx (c : Ctx) (ps : Params) : Ctx :=
+  if (paramMap ps).length > 0 then c.withVars (paramMap ps) else c
+
+/-- what `pathvar.Vars(r)` shows inside the route handler (`nil` and the empty map print alike). -/
+def delivered (c : Ctx) (ps : Params) : List (String × String) := ((handlerCtx c ps).vars).getD []
 
 end GoZero.C09
